@@ -7,13 +7,13 @@ package plonk
 //@ def plonk_ok(p) = cd_small(p.commonData) && p.commonData.Config.NumChallenges <= pow2(16) && 1 <= p.commonData.QuotientDegreeFactor &&
 //@     p.DEGREE.Limb == pow2(p.commonData.DegreeBits) && p.DEGREE_QE == tuple(pow2(p.commonData.DegreeBits), 0) &&
 //@     len(p.commonDataKIs) == p.commonData.Config.NumRoutedWires && canonSeq(p.commonDataKIs) &&
-//@     p.evaluateGatesChip.numGateConstraints == p.commonData.NumGateConstraints && p.commonData.NumGateConstraints <= pow2(32)
+//@     p.evaluateGatesChip.numGateConstraints == p.commonData.NumGateConstraints && p.commonData.NumGateConstraints <= pow2(32) && sel_small(p.evaluateGatesChip.selectorsInfo)
 
 //@ func NewPlonkChip(api frontend.API, commonData types.CommonCircuitData) (res *PlonkChip)
 //@   props C16 C17
 //@   circuit sound-only
 //@   requires cd_small(commonData) && commonData.Config.NumChallenges <= pow2(16) && 1 <= commonData.QuotientDegreeFactor && commonData.NumGateConstraints <= pow2(32)
-//@   requires len(commonData.KIs) == commonData.Config.NumRoutedWires && forall(k, 0, len(commonData.KIs), commonData.KIs[k] < P)
+//@   requires len(commonData.KIs) == commonData.Config.NumRoutedWires && forall(k, 0, len(commonData.KIs), commonData.KIs[k] < P) && sel_small(commonData.SelectorsInfo)
 //@   ensures plonk_ok(res)
 //@   ensures implies(pp_relation(commonData), pp_relation(res.commonData))
 //@   loop 0 invariant -1 <= rangeindex && rangeindex < len(commonData.GateIds)
@@ -87,8 +87,9 @@ package plonk
 // eval_vanishing_poly: terms = [L0(zeta) (Z_i(zeta) - 1)]_i ++ [partial product checks]_i ++ gate constraints, reduced with powers of each alpha.
 // The numerators beta_i * (k_j zeta) + w_j + gamma_i and denominators beta_i * sigma_j + w_j + gamma_i are loop invariants (loop 2).
 //@ func (p *PlonkChip) evalVanishingPoly(vars gates.EvaluationVars, proofChallenges variables.ProofChallenges, openings variables.OpeningSet, zetaPowN gl.QuadraticExtensionVariable) (res []gl.QuadraticExtensionVariable)
-//@   props C16 C05 C20
+//@   props C16 C05 C20 C01
 //@   circuit
+//@   calls gates.EvaluateGatesChip.EvaluateGateConstraints plonk.PlonkChip.evalL0
 //@   requires plonk_ok(p) && pp_relation(p.commonData) && canonQE(proofChallenges.PlonkZeta) && canonQE(zetaPowN)
 //@   requires canonSeq(proofChallenges.PlonkBetas) && canonSeq(proofChallenges.PlonkGammas) && canonSeq(proofChallenges.PlonkAlphas)
 //@   requires canonQEs(openings.Wires) && canonQEs(openings.PlonkSigmas) && canonQEs(openings.PlonkZs) && canonQEs(openings.PlonkZsNext) && canonQEs(openings.PartialProducts)
@@ -124,8 +125,9 @@ package plonk
 //   sum_k alpha_i^k * term_k  ==  (zeta^n - 1) * sum_m zeta^(n m) * quotient_chunk_i[m]
 // with the terms of eval_vanishing_poly (exported as ghost results of that call).
 //@ func (p *PlonkChip) Verify(proofChallenges variables.ProofChallenges, openings variables.OpeningSet, publicInputsHash poseidon.GoldilocksHashOut)
-//@   props C16 C05 C20 C17
+//@   props C16 C05 C20 C17 C01
 //@   circuit
+//@   calls plonk.PlonkChip.evalVanishingPoly
 //@   flag acceptance-asserts
 //@   requires plonk_ok(p) && pp_relation(p.commonData) && canonQE(proofChallenges.PlonkZeta)
 //@   requires canonSeq(proofChallenges.PlonkBetas) && canonSeq(proofChallenges.PlonkGammas) && canonSeq(proofChallenges.PlonkAlphas)
